@@ -42,7 +42,17 @@ fn check_case(c: &Case) -> Outcome {
     let text = Printer { use_prefix: c.use_prefix }.query(&c.query);
     let lex = c.data.lexical();
     let ctx = EvalCtx::new(&lex, &c.query.from, &c.query.from_named);
-    let full = eval_select_full(&c.query, &ctx, &Active::Default);
+    let (ext, visible, keys) = eval_select_ext(&c.query, &ctx, &Active::Default);
+    let hidden_keys = keys.iter().any(|(i, _)| *i >= visible);
+    let full: Vec<Vec<Option<String>>> = ext.iter().map(|r| r[..visible].to_vec()).collect();
+    // top-level ORDER BY on variables that are not projected: judged through check_answer_hidden_keys
+    let judge = |rows: &[Vec<String>]| -> Result<(), (String, String)> {
+        if hidden_keys {
+            check_answer_hidden_keys(&c.query, &ext, visible, rows).map(|_| ())
+        } else {
+            check_answer(&c.query, &full, rows)
+        }
+    };
     if ctx.out_of_fragment.get() > 0 {
         o.skipped.push("out-of-fragment");
         return o;
@@ -99,7 +109,7 @@ fn check_case(c: &Case) -> Outcome {
             return o;
         }
         Ok(Ok(rows)) => {
-            if let Err((s, d)) = check_answer(&c.query, &full, &rows) {
+            if let Err((s, d)) = judge(&rows) {
                 o.fail(format!("c01.{s}[{fsig}]"), format!("{d}\nquery: {text}\ndata: {:?}", lex));
                 return o;
             }
@@ -123,7 +133,7 @@ fn check_case(c: &Case) -> Outcome {
                 return o;
             }
             Ok((Ok(_), Ok(rows))) => {
-                if let Err((s, d)) = check_answer(&c.query, &full, &rows) {
+                if let Err((s, d)) = judge(&rows) {
                     o.fail(format!("c01.requery.{s}[{fsig}]"), format!("second execution on the same database: {d}\nquery: {text}\ndata: {:?}", lex));
                     return o;
                 }
@@ -138,7 +148,7 @@ fn check_case(c: &Case) -> Outcome {
             Err(site) => o.panic(&format!("execute_query_rayon_parallel2_volcano({text})"), &site),
             Ok(Err(_)) => unreachable!(),
             Ok(Ok(rows)) => {
-                if let Err((s, d)) = check_answer(&c.query, &full, &rows) {
+                if let Err((s, d)) = judge(&rows) {
                     o.fail(format!("c01.volcano.{s}[{fsig}]"), format!("{d}\nquery: {text}\ndata: {:?}", lex));
                 }
             }
